@@ -963,6 +963,11 @@ def sim_tie(env, results, driver_ok=True, window=4096):
                     out["memory_bytes_compared"] += n
                     if mb != rb and nan_only_diff(mb, rb):
                         out["nan_payload_leaks_tolerated"] = out.get("nan_payload_leaks_tolerated", 0) + 1
+                    elif mb != rb and tainted:
+                        # bytes of an arithmetic NaN (payload left open by the specification; canonical in the model, propagated by
+                        # the hardware) were moved out of their cell by a narrower store / memory.copy / an overlapping store: the
+                        # real output's memory is judged against V8's by the e2e part of the same job, not against the model here
+                        out["nan_payload_leaks_tolerated"] = out.get("nan_payload_leaks_tolerated", 0) + 1
                     elif mb != rb:
                         k = next(i for i in range(n) if mb[i] != rb[i])
                         bad("final memory at %d" % (o + k), model=mb[k:k + 16].hex(), real=rb[k:k + 16].hex())
